@@ -2,7 +2,7 @@
    Proofs/FastVerilogProofs.v.  Models: Model/FastVerilog.v (fast_sem, full_sem, untie, in_subset). *)
 From Coq Require Import Ascii.
 From stdpp Require Import strings gmap sets.
-From CG Require Import Model.FastVerilog Model.FastVerilogText Proofs.FastVerilogTextProofs Proofs.FastVerilogProofs Proofs.FvA6 Proofs.FvA10 Proofs.FvA1 Proofs.FvD6 Proofs.FvD7 Proofs.FvD8 Proofs.FvE2 Proofs.FvE3 Base.Sem Gen.Gen_fastv.
+From CG Require Import Model.FastVerilog Model.FastVerilogText Proofs.FastVerilogTextProofs Proofs.FastVerilogProofs Proofs.FvA6 Proofs.FvA10 Proofs.FvA1 Proofs.FvP1 Proofs.FvD6 Proofs.FvD7 Proofs.FvD8 Proofs.FvE2 Proofs.FvE3 Base.Sem Gen.Gen_fastv.
 Open Scope string_scope.
 
 (* obligation on the regenerated tables: patterns of the fast reader as captured from a live call (keywords anchored with \b,
@@ -13,12 +13,34 @@ Print Assumptions C14_tables_ok.
 
 (* THE FULL STATEMENT (DESIGN.md appendix C): for every AST of the documented subset both readers succeed and return the same
    circuit apart from the names of the constant nodes (untie_eq_registry: that equality includes name and registry).
-   PROVED for every AST without blackbox instances (C14_fast_full_agree_prims, C14_fast_full_agree_assigns below); for ASTs with
-   blackbox instances it is decided per generated AST / rendered text by Run_C14.agree + Run_C14.holds (see
-   C14_case_decides_instance_partial); proved for all inputs are: success of the fast reader on the whole subset, equality of name and registry whenever both
-   succeed, the ingredients the repairs rest on (fresh tie names, parity cancellation), and that equality up to the constant
-   names implies the functional clause. *)
+   PROVED for all ASTs of the subset (C14_fast_full_agree_ast below), blackbox instances with connected / `.p()` / omitted pins
+   included.  Proof (Proofs/FvA0..FvE7): both graphs are lookup functions of one state machine over the statements (a blackbox
+   instance contributes its pins and the nets on its output pins as entries) -- full reader: fold invariant over add_g and
+   add_blackbox (add_node_spec, add_blackbox_spec, inst_step, full_fold), fast reader: batch construction (fast_g3_lookup) --
+   both equal one function finT of the tie names; untie maps finT to its instance at the canonical names (untie_fin). *)
 Definition C14_fast_full_agree_ast_full : Prop := ∀ a bbs, in_subset a bbs = true → agreement a bbs.
+Theorem C14_fast_full_agree_ast : C14_fast_full_agree_ast_full.
+Proof. exact agree_all. Qed.
+Print Assumptions C14_fast_full_agree_ast.
+
+(* THE PROPERTY as stated, for every AST of the subset: same name, registry, inputs; graphs identical apart from the constant
+   nodes' names; every consistent valuation of the fast reader's circuit is matched by a consistent valuation of the full reader's
+   circuit that agrees on every net and every blackbox pin (any size, cyclic circuits included) *)
+Theorem C14_property : ∀ a bbs, in_subset a bbs = true →
+  ∃ Cf Cl, fast_sem a bbs = Ok Cf ∧ full_sem a bbs = Ok Cl ∧ untie Cf = untie Cl ∧
+    c_name Cf = c_name Cl ∧ c_bbs Cf = c_bbs Cl ∧ inputs (c_g Cf) = inputs (c_g Cl) ∧
+    ∀ vf, consistent (c_g Cf) vf → ∃ vl, consistent (c_g Cl) vl ∧ ∀ n, n ∈ idents a ∨ dotted n = true → vl n = vf n.
+Proof. exact property_all. Qed.
+Print Assumptions C14_property.
+Theorem C14_io : ∀ a bbs, in_subset a bbs = true →
+  ∃ Cf Cl, fast_sem a bbs = Ok Cf ∧ full_sem a bbs = Ok Cl ∧
+    inputs (c_g Cf) = list_to_set (decl_inputs a) ∧ inputs (c_g Cl) = list_to_set (decl_inputs a) ∧
+    outputs (c_g Cf) = list_to_set (decl_outputs a) ∧ outputs (c_g Cl) = list_to_set (decl_outputs a).
+Proof. exact property_io. Qed.
+Print Assumptions C14_io.
+Theorem C14_full_sem_succeeds : ∀ a bbs, in_subset a bbs = true → ∃ C, full_sem a bbs = Ok C.
+Proof. intros a bbs H. destruct (full_sem_char a bbs H) as (C1 & g1 & _ & _ & Hf). eauto. Qed.
+Print Assumptions C14_full_sem_succeeds.
 
 (* per-instance decision: the boolean evaluated by the oracle is the statement's instance *)
 Theorem C14_case_decides_instance_partial : ∀ a bbs, agreementb a bbs = true ↔ agreement a bbs.
@@ -77,7 +99,7 @@ Print Assumptions C14_io_prims_assigns.
    statement order, use before definition): the full reader raises nothing.  Proof: invariant of its fold over add_g
    (Proofs/FvA2..FvA10: add_node_spec, full_item_step, full_fold, full_sem_char). *)
 Theorem C14_full_sem_succeeds_prims_assigns_partial : ∀ a bbs, in_subset a bbs = true → no_inst a = true → ∃ C, full_sem a bbs = Ok C.
-Proof. intros a bbs H1 H2. destruct (full_sem_char a bbs H1 H2) as (C1 & g1 & _ & _ & _ & H). eauto. Qed.
+Proof. intros a bbs H1 _. by apply C14_full_sem_succeeds. Qed.
 Print Assumptions C14_full_sem_succeeds_prims_assigns_partial.
 
 (* building block of the missing stage (blackbox instances): Circuit.add_blackbox on a fresh instance whose connections are legal
